@@ -876,9 +876,20 @@ class FamilyMixin:
         n = len(h.idx)
         sel = self.rowsel(n, op["idx"])
         cnt = max(0, (len(sel) if sel is not None else 1) + op["dlen"])
-        src = getattr(imath, h.vtype)(cnt)
-        svals = []
-        for k in range(cnt):
+        # one time in three the source is a live variable array - possibly the destination itself or another view of its
+        # storage (va[::-1] = va): as on a list, the right-hand side is read before anything is written
+        o = self.pick(op["h"] // 3, lambda x: x.kind == "varr" and x.vtype == h.vtype and len(x.idx) == cnt) if op["k"] % 3 == 0 else None
+        if o is not None:
+            src = o.real
+            svals = [list(o.store.vals[o.idx[k]].vals) for k in range(cnt)]
+            self.inc("probe.assign_from_live_handle")
+            if o.store is h.store:
+                self.inc("probe.assign_source_shares_storage_with_destination")
+                self.sig_ctx = ("varray-setitem-items-source-shares-storage", h.hkind(), h.vtype)
+        else:
+            src = getattr(imath, h.vtype)(cnt)
+            svals = []
+        for k in range(cnt if o is None else 0):
             sz = (op["k"] + k) % 4
             src.size[k] = sz
             rowv = [self.fresh_value(h.tname, op["v"] * 32 + k * 4 + c + 2) for c in range(sz)]
@@ -1201,9 +1212,18 @@ class FamilyMixin:
                         h.store.vals[h.idx[k]] = s
         else:
             ln = n if form == "full" else cnt
-            src = getattr(imath, h.tname)(ln)
-            sv = []
-            for i in range(ln):
+            o = self.pick(op["h"] // 3, lambda x: x.kind == "str" and x.tname == h.tname and len(x.idx) == ln) if op["k"] % 3 == 0 else None
+            if o is not None:
+                src = o.real
+                sv = [o.store.vals[k] for k in o.idx]
+                self.inc("probe.assign_from_live_handle")
+                if o.store is h.store:
+                    self.inc("probe.assign_source_shares_storage_with_destination")
+                    self.sig_ctx = ("string-setitem-mask-%s-source-shares-storage" % form, h.hkind(), h.tname)
+            else:
+                src = getattr(imath, h.tname)(ln)
+                sv = []
+            for i in range(ln if o is None else 0):
                 s = sval((op["k"] + i), op)
                 src[i] = s
                 sv.append(s)
@@ -1227,9 +1247,20 @@ class FamilyMixin:
         n = len(h.idx)
         sel = self.rowsel(n, op["idx"])
         ln = max(0, (len(sel) if sel is not None else 1) + op["dlen"])
-        src = getattr(imath, h.tname)(ln)
-        sv = []
-        for i in range(ln):
+        # one time in three the source is a live string array - possibly the destination itself or another view of its
+        # storage (sa[::-1] = sa): as on a list, the right-hand side is read before anything is written
+        o = self.pick(op["h"] // 3, lambda x: x.kind == "str" and x.tname == h.tname and len(x.idx) == ln) if op["k"] % 3 == 0 else None
+        if o is not None:
+            src = o.real
+            sv = [o.store.vals[k] for k in o.idx]
+            self.inc("probe.assign_from_live_handle")
+            if o.store is h.store:
+                self.inc("probe.assign_source_shares_storage_with_destination")
+                self.sig_ctx = ("string-setitem-array-source-shares-storage", h.hkind(), h.tname)
+        else:
+            src = getattr(imath, h.tname)(ln)
+            sv = []
+        for i in range(ln if o is None else 0):
             s = sval((op["k"] * 3 + i), op)
             src[i] = s
             sv.append(s)
